@@ -45,6 +45,8 @@ from nemoguardrails.colang.v2_x.lang.colang_ast import (
     SpecOp,
     SpecType,
     WaitForHeads,
+    flow_argument_key,
+    flow_parameter_name,
 )
 from nemoguardrails.colang.v2_x.lang.expansion import expand_elements
 from nemoguardrails.colang.v2_x.runtime.errors import (
@@ -164,15 +166,16 @@ def create_flow_instance(
 
     # Add all the flow parameters
     for idx, param in enumerate(flow_config.parameters):
-        if param.name in event_arguments:
-            val = event_arguments[param.name]
+        arg_key = flow_argument_key(param.name)
+        if arg_key in event_arguments:
+            val = event_arguments[arg_key]
         else:
             val = (
                 eval_expression(param.default_value_expr, {})
                 if param.default_value_expr
                 else None
             )
-        flow_state.arguments[param.name] = val
+        flow_state.arguments[arg_key] = val
         flow_state.context.update(
             {
                 param.name: val,
@@ -184,7 +187,7 @@ def create_flow_instance(
         positional_param = f"${idx}"
         if positional_param in event_arguments:
             val = event_arguments[positional_param]
-            flow_state.arguments[param.name] = val
+            flow_state.arguments[flow_argument_key(param.name)] = val
             flow_state.arguments[positional_param] = val
 
     # Add all flow return members
@@ -682,16 +685,17 @@ def _get_reference_activated_flow_instance(
         # Check that the reference instance has exactly the same parameters
         matching_parameters: bool = True
         for idx, arg in enumerate(state.flow_configs[flow_id].parameters):
-            val = activated_flow.arguments[arg.name]
+            arg_key = flow_argument_key(arg.name)
+            val = activated_flow.arguments[arg_key]
             # Named flow parameters
-            matched = arg.name in event.arguments and val == event.arguments[arg.name]
+            matched = arg_key in event.arguments and val == event.arguments[arg_key]
             # Positional flow parameters
             matched |= (
                 f"${idx}" in event.arguments and val == event.arguments[f"${idx}"]
             )
             # Default flow parameters
             matched |= (
-                arg.name not in event.arguments
+                arg_key not in event.arguments
                 and f"${idx}" not in event.arguments
                 and arg.default_value_expr is not None
                 and val == eval_expression(arg.default_value_expr, {})
@@ -1446,7 +1450,7 @@ def _start_flow(state: State, flow_state: FlowState, event_arguments: dict) -> N
             pos_arg = f"${idx}"
             last_idx = idx
             if pos_arg in event_arguments:
-                flow_state.context[arg] = event_arguments[pos_arg]
+                flow_state.context[flow_parameter_name(arg)] = event_arguments[pos_arg]
             else:
                 break
         # Check if more parameters were provided than the flow takes
